@@ -165,6 +165,21 @@ class EscapeAnalysis:
                                 ts = self.handler_types(func.module, p)
                                 nm = ts[0] if ts else None
                                 break
+                    names = []
+                    if nm is None and isinstance(n.exc, ast.Call) and self.cg is not None:
+                        # ``raise helper(...)``: the classes the helper returns
+                        for callee in self.cg.resolve_call(func, n.exc):
+                            if callee.name == '__init__':
+                                continue
+                            for r in own_nodes(callee.node):
+                                if isinstance(r, ast.Return) and r.value is not None:
+                                    x = self.exc_name(callee.module, r.value)
+                                    if x and x not in names:
+                                        names.append(x)
+                    if names:
+                        for x in names:
+                            out.append(Site(func, n, x, 'raise'))
+                        continue
                     if nm is None:
                         nm = self.exc_name(func.module, n.exc)
                     out.append(Site(func, n, nm or '?', 'raise'))
